@@ -66,7 +66,7 @@ def min_image_dist(cell, a, b):
 
 
 def build(cellname, patname, copies, rnd, noise=0.0, decoys=0, mirror_decoys=0, near_miss=0, atol=0.05, straddle=True,
-          pattern_override=None, bent=0):
+          pattern_override=None, bent=0, tilt=None):
     """Returns dict(structure=Atoms, pattern=Atoms, planted=[index tuples in pattern order], poses=[(rot, trans)])."""
     from mofun import Atoms
     cell = CELLS[cellname] if cellname in CELLS else SMALL_CELLS[cellname]
@@ -81,6 +81,12 @@ def build(cellname, patname, copies, rnd, noise=0.0, decoys=0, mirror_decoys=0, 
     rnd.shuffle(grid)
     total = copies + mirror_decoys + near_miss + bent
     rots = rotations(rnd, total, include_axis=False)
+    if tilt is not None:
+        # copies that are (almost) aligned with the pattern as written: turned by the given small angles (radians) about random axes
+        rots = []
+        for ci in range(total):
+            ax = np.array([rnd.gauss(0, 1) for _ in range(3)])
+            rots.append(R.from_rotvec(tilt[ci % len(tilt)] * ax / np.linalg.norm(ax)))
     for ci in range(total):
         f = np.array(grid[ci])
         if straddle:
